@@ -266,3 +266,26 @@ def r6(ctx):
     from . import c01
     ctx.sub(c01.r8)
     ctx.sub(c01.r1, only=("alloc:P",))   # the back-pointer table must be able to hold every label it stores
+
+
+@rule("C04", "R7", "FLOW", "the single-series front end stacks the caller's series as it is given, with the caller's window size", floor=2)
+def r7(ctx):
+    """One label per *input row*: nothing may transpose, trim, subsample or otherwise re-shape the series between the call and
+    the stacker."""
+    ana = ctx.ana
+    fe = ana.func("front_end.ticc_labels")
+    st = ana.func("data_preparation.stack_training_data")
+    cs = calls_to(ana, fe, st.qualname)
+    if not cs:
+        ctx.unrecognised(fe, "ticc_labels does not call the single-series stacker directly", role="single:stack")
+        return
+    b = ana.builder(fe, no_inline=ana.known)
+    for c in cs:
+        ba = bind_args(st, c.node)
+        d, w = ba.get(st.params[0]), ba.get(st.params[1])
+        dt = b.term(d, b.at(c.node)) if d is not None else None
+        wt = b.term(w, b.at(c.node)) if w is not None else None
+        ctx.check(dt == Sym(fe.params[0]), fe, "the stacker receives the caller's series itself", line=c.node.lineno, role="single:data",
+                  expected=fe.params[0], found=str(dt)[:120])
+        ctx.check(wt == Sym("window_size"), fe, "the stacker receives the caller's window size", line=c.node.lineno, role="single:window",
+                  expected="window_size", found=str(wt)[:80])
